@@ -7,6 +7,12 @@
 //!                                 wu wi: rows of `[v w]` (collected into `BTreeMap`s)
 //!   conv_from_arcs <repr> <arcs>  mx el: `T::from(Vec<(usize, usize)>)`
 //!       =>  obs | panic
+//!   conv_from_rows_lazy <repr> <shape> <entries>   entries: `none` | row; the rows reach `From` through a
+//!   conv_from_arcs_lazy <repr> <shape> <entries>   LAZY iterator over `Vec<Option<_>>` whose size hint differs
+//!                                 from the real length: shape ∈ mapwhile takewhile (stop at the first `none`)
+//!                                 | flatten filter (skip every `none`)
+//!   conv_mx_big <order> <arcs> <tgt>   (stress only) matrix of order ≥ 65 536 built by `add_arc`, converted to
+//!                                 el | al; cell indices ≥ 2^32   =>  [order [arcs of the source] [arcs of the target]]
 //!
 //! obs = `[order [vertices] [[u v] …]]`, for the weighted lists `[order [vertices] [[u v w] …]]`.
 #![allow(clippy::all)]
@@ -15,8 +21,8 @@ use crate::graphs::{self, Desc};
 use crate::rng::Rng;
 use crate::value::V;
 use graaf::{
-    AdjacencyList, AdjacencyListWeighted, AdjacencyMap, AdjacencyMatrix, ArcsWeighted, EdgeList,
-    Order, Vertices,
+    AddArc, AdjacencyList, AdjacencyListWeighted, AdjacencyMap, AdjacencyMatrix, Arcs, ArcsWeighted,
+    EdgeList, Empty, Order, Vertices,
 };
 use std::collections::{BTreeMap, BTreeSet};
 use std::panic::{catch_unwind, AssertUnwindSafe};
@@ -194,6 +200,121 @@ pub fn eval(op: &str, args: &[V]) -> Option<Vec<V>> {
                 _ => None,
             }
         }
+        "conv_from_rows_lazy" => {
+            let [repr, shape, entries] = args else { return None };
+            let shape = shape.as_atom()?;
+            let entries = entries.as_list()?;
+            macro_rules! lazy {
+                ($v:expr, $build:expr) => {
+                    match shape {
+                        "mapwhile" => $build($v.into_iter().map_while(|r| r)),
+                        "takewhile" => $build($v.into_iter().take_while(Option::is_some).map(Option::unwrap)),
+                        "flatten" => $build($v.into_iter().flatten()),
+                        "filter" => $build($v.into_iter().filter(Option::is_some).map(Option::unwrap)),
+                        _ => return None,
+                    }
+                };
+            }
+            match repr.as_atom()? {
+                r @ ("al" | "am") => {
+                    let sets: Vec<Option<BTreeSet<usize>>> = entries
+                        .iter()
+                        .map(|e| match e {
+                            V::A(a) if a == "none" => Some(None),
+                            row => row.as_usizes().map(|xs| Some(xs.into_iter().collect())),
+                        })
+                        .collect::<Option<_>>()?;
+                    Some(vec![if r == "al" {
+                        lazy!(sets, |it| graphs::observe(&AdjacencyList::from(it)))
+                    } else {
+                        lazy!(sets, |it| graphs::observe(&AdjacencyMap::from(it)))
+                    }])
+                }
+                r @ ("wu" | "wi") => {
+                    let mut maps: Vec<Option<BTreeMap<usize, isize>>> = vec![];
+                    for e in entries {
+                        if matches!(e, V::A(a) if a == "none") {
+                            maps.push(None);
+                            continue;
+                        }
+                        let mut m = BTreeMap::new();
+                        for kv in e.as_list()? {
+                            let kv = kv.as_list()?;
+                            if kv.len() != 2 {
+                                return None;
+                            }
+                            let _ = m.insert(kv[0].as_usize()?, kv[1].as_isize()?);
+                        }
+                        maps.push(Some(m));
+                    }
+                    if r == "wi" {
+                        Some(vec![lazy!(maps, |it| observe_wi(&AdjacencyListWeighted::<isize>::from(it)))])
+                    } else {
+                        let maps: Vec<Option<BTreeMap<usize, usize>>> = maps
+                            .into_iter()
+                            .map(|m| m.map(|m| m.into_iter().map(|(k, w)| (k, w.unsigned_abs())).collect()))
+                            .collect();
+                        Some(vec![lazy!(maps, |it| observe_wu(&AdjacencyListWeighted::<usize>::from(it)))])
+                    }
+                }
+                _ => None,
+            }
+        }
+        "conv_from_arcs_lazy" => {
+            let [repr, shape, entries] = args else { return None };
+            let shape = shape.as_atom()?;
+            let mut arcs: Vec<Option<(usize, usize)>> = vec![];
+            for e in entries.as_list()? {
+                if matches!(e, V::A(a) if a == "none") {
+                    arcs.push(None);
+                } else {
+                    let p = e.as_list()?;
+                    if p.len() != 2 {
+                        return None;
+                    }
+                    let (u, v) = (p[0].as_usize()?, p[1].as_usize()?);
+                    if u > 4096 || v > 4096 {
+                        return None;
+                    }
+                    arcs.push(Some((u, v)));
+                }
+            }
+            macro_rules! lazy {
+                ($build:expr) => {
+                    match shape {
+                        "mapwhile" => $build(arcs.into_iter().map_while(|r| r)),
+                        "takewhile" => $build(arcs.into_iter().take_while(Option::is_some).map(Option::unwrap)),
+                        "flatten" => $build(arcs.into_iter().flatten()),
+                        "filter" => $build(arcs.into_iter().filter(Option::is_some).map(Option::unwrap)),
+                        _ => return None,
+                    }
+                };
+            }
+            match repr.as_atom()? {
+                "mx" => Some(vec![lazy!(|it| graphs::observe(&AdjacencyMatrix::from(it)))]),
+                "el" => Some(vec![lazy!(|it| graphs::observe(&EdgeList::from(it)))]),
+                _ => None,
+            }
+        }
+        "conv_mx_big" => {
+            let [order, arcs, tgt] = args else { return None };
+            let order = order.as_usize()?;
+            let arcs = arcs.as_pairs()?;
+            if !(65_536..=70_000).contains(&order) || arcs.len() > 64 {
+                return None;
+            }
+            let mut m = AdjacencyMatrix::empty(order);
+            for &(u, v) in &arcs {
+                m.add_arc(u, v);
+            }
+            let src = V::pairs(m.arcs());
+            let out = match tgt.as_atom()? {
+                "el" => V::pairs(EdgeList::from(m).arcs()),
+                "al" => V::pairs(AdjacencyList::from(m).arcs()),
+                _ => return None,
+            };
+            Some(vec![V::L(vec![V::u(order), src, out])])
+        }
         _ => None,
     }
 }
@@ -312,7 +433,143 @@ fn gen_arc_list(rng: &mut Rng) -> String {
     V::pairs(arcs).to_string()
 }
 
+const SHAPES: [&str; 4] = ["mapwhile", "takewhile", "flatten", "filter"];
+
+/// Rows behind a lazy iterator: `(shape, entries)`. The rows that really reach `From` (`eff`) are
+/// valid, or carry a self-loop, or a head in the window `real order <= v < number of entries`
+/// (what a wrong use of `size_hint().1` accepts), or a head beyond everything; bad heads sit in
+/// rows that also have smaller in-range heads.
+fn gen_lazy_rows(rng: &mut Rng, weighted: Option<bool>, big: bool) -> (String, String) {
+    let shape = *rng.pick(&SHAPES);
+    let n = if rng.chance(1, 12) { 0 } else if big { 20 + rng.below(200) } else { 1 + rng.below(8) };
+    let holes = 1 + rng.below(if big { 40 } else { 4 });
+    let kind = match rng.below(20) { 0..=9 => 0, 10..=15 => 1, 16 | 17 => 2, _ => 3 };
+    let mut rows: Vec<Vec<(usize, i64)>> = (0..n)
+        .map(|u| {
+            let mut row = vec![];
+            if n > 1 {
+                for _ in 0..rng.below(4) {
+                    let mut v = rng.below(n);
+                    if v == u {
+                        v = (u + 1) % n;
+                    }
+                    let w = match weighted { Some(true) => rng.range(-50, 50), _ => rng.range(0, 50) };
+                    row.push((v, w));
+                }
+            }
+            row
+        })
+        .collect();
+    if n > 0 {
+        let u = rng.below(n);
+        match kind {
+            1 => rows[u].push((n + rng.below(holes), 1)),
+            2 => rows[u].push((u, 1)),
+            3 => rows[u].push((n + holes + rng.below(3), 1)),
+            _ => {}
+        }
+    }
+    let show = |row: &Vec<(usize, i64)>| {
+        let items: Vec<String> = row
+            .iter()
+            .map(|&(v, w)| if weighted.is_some() { format!("[{v} {w}]") } else { format!("{v}") })
+            .collect();
+        format!("[{}]", items.join(" "))
+    };
+    let mut entries: Vec<String> = vec![];
+    if shape == "mapwhile" || shape == "takewhile" {
+        entries.extend(rows.iter().map(show));
+        entries.push("none".into());
+        for _ in 1..holes {
+            // never reached
+            entries.push(if rng.chance(1, 2) { "none".into() } else { "[]".into() });
+        }
+    } else {
+        let mut slots: Vec<bool> = (0..n).map(|_| true).chain((0..holes).map(|_| false)).collect();
+        rng.shuffle(&mut slots);
+        let mut it = rows.iter();
+        for real in slots {
+            entries.push(if real { show(it.next().expect("row")) } else { "none".into() });
+        }
+    }
+    (shape.to_string(), format!("[{}]", entries.join(" ")))
+}
+
+fn gen_lazy_arcs(rng: &mut Rng) -> (String, String) {
+    let shape = *rng.pick(&SHAPES);
+    let kind = match rng.below(20) { 0 | 1 => 2, 2..=4 => 1, _ => 0 }; // empty / self-loop / valid
+    let n = 2 + rng.below(12);
+    let mut arcs: Vec<Option<(usize, usize)>> = vec![];
+    if kind != 2 {
+        for _ in 0..(1 + rng.below(2 * n)) {
+            let u = rng.below(n);
+            let mut v = rng.below(n);
+            if v == u {
+                v = (u + 1) % n;
+            }
+            arcs.push(Some((u, v)));
+        }
+        if kind == 1 {
+            let x = rng.below(n);
+            let at = rng.below(arcs.len() + 1);
+            arcs.insert(at, Some((x, x)));
+        }
+    }
+    let holes = 1 + rng.below(4);
+    if shape == "mapwhile" || shape == "takewhile" {
+        arcs.push(None);
+        for _ in 1..holes {
+            // never reached: larger ids and even a self-loop must not matter
+            arcs.push(if rng.chance(1, 2) { None } else { Some((n + 5, n + 5 + rng.below(2))) });
+        }
+    } else {
+        for _ in 0..holes {
+            let at = rng.below(arcs.len() + 1);
+            arcs.insert(at, None);
+        }
+    }
+    let items: Vec<String> =
+        arcs.iter().map(|a| a.map_or("none".to_string(), |(u, v)| format!("[{u} {v}]"))).collect();
+    (shape.to_string(), format!("[{}]", items.join(" ")))
+}
+
+fn emit_lazy(rng: &mut Rng, n_rows: usize, n_arcs: usize, big: bool, emit: &mut dyn FnMut(String)) {
+    for _ in 0..n_rows {
+        let (repr, w) = match rng.below(4) {
+            0 => ("al", None),
+            1 => ("am", None),
+            2 => ("wu", Some(false)),
+            _ => ("wi", Some(true)),
+        };
+        let (shape, entries) = gen_lazy_rows(rng, w, big);
+        emit(format!("conv_from_rows_lazy {repr} {shape} {entries}"));
+    }
+    for _ in 0..n_arcs {
+        let repr = if rng.chance(1, 2) { "mx" } else { "el" };
+        let (shape, entries) = gen_lazy_arcs(rng);
+        emit(format!("conv_from_arcs_lazy {repr} {shape} {entries}"));
+    }
+}
+
 pub fn gen(rng: &mut Rng, thorough: bool, emit: &mut dyn FnMut(String)) {
+    if crate::stress() {
+        // out-of-distribution stream, most promising first (the orchestrator runs it when a tie is broken)
+        emit_lazy(rng, 3000, 800, false, emit);
+        emit_lazy(rng, 300, 0, true, emit);
+        // rows mixing in-range and out-of-range heads, eager
+        for _ in 0..2000 {
+            match rng.below(4) {
+                0 => emit(format!("conv_from_rows al {}", gen_rows(rng, None))),
+                1 => emit(format!("conv_from_rows am {}", gen_rows(rng, None))),
+                2 => emit(format!("conv_from_rows wu {}", gen_rows(rng, Some(false)))),
+                _ => emit(format!("conv_from_rows wi {}", gen_rows(rng, Some(true)))),
+            }
+        }
+        // matrix of order >= 65 536: cell indices >= 2^32 (~550 MB of zero pages, a few seconds)
+        emit("conv_mx_big 66000 [[65999 0] [65999 65998] [65076 1] [65075 65999] [0 1] [70 65999] [33000 33001]] el".to_string());
+        emit("conv_mx_big 65536 [[65535 0] [65535 65534] [1 65535] [65534 65535]] al".to_string());
+        return;
+    }
     // (1) exhaustive small scope: every digraph on 1..=3 (thorough: 4) vertices, every ordered pair
     let max_small = if thorough { 4 } else { 3 };
     for n in 1usize..=max_small {
@@ -366,6 +623,10 @@ pub fn gen(rng: &mut Rng, thorough: bool, emit: &mut dyn FnMut(String)) {
             _ => emit(format!("conv_from_rows wi {}", gen_rows(rng, Some(true)))),
         }
     }
+    // (4b) the same through lazy iterators whose size hint differs from the real length
+    emit_lazy(rng, if thorough { 4000 } else { 700 }, if thorough { 1500 } else { 300 }, false, emit);
+    // (4c) one matrix of order >= 65 536 (cell indices >= 2^32; ~0.7 s, ~535 MB of zero pages)
+    emit("conv_mx_big 66000 [[65999 0] [65999 65998] [65076 1] [65075 65999] [0 1] [70 65999] [33000 33001]] el".to_string());
     // (5) From<arcs>
     for _ in 0..(if thorough { 10000 } else { 1600 }) {
         let repr = if rng.chance(1, 2) { "mx" } else { "el" };
